@@ -488,8 +488,46 @@ func c10Senders(c *Ctx) {
 			okPub = okPub && g
 		}
 		c.Check(ok && okPub, "C10.B5-senders", f.Name+" › publishes the CBOR of its message", f.SSA.Pos(), "publishes exactly the buffer the given message was encoded into, on err == nil", "pubsub sender does not publish the CBOR encoding of the message it was given")
+		// pubsub keeps the published slice: the buffer must belong to this call alone (a pooled or retained buffer is
+		// overwritten by the next Send while the previous message is still in flight)
+		if len(encs) == 1 {
+			b := strip(encs[0].X.Args[1])
+			fresh := false
+			switch {
+			case b.Op == "call" && nameMatches(b.Name, "bytes.NewBuffer"):
+				fresh = len(b.Args) == 1 && (b.Args[0].Op == "nil" || b.Args[0].Op == "makeslice")
+			case b.Op == "alloc" || b.Op == "complit" || b.Op == "var":
+				_, isAl := b.V.(*ssa.Alloc)
+				fresh = isAl || b.Cell != nil
+			}
+			c.Check(fresh, "C10.B5-senders", f.Name+" › encode buffer owned by the call", encs[0].In.Pos(), "the message is encoded into a buffer created by this call", "the message is encoded into a buffer that outlives the call ("+abbreviate(b.String())+"): the published bytes are overwritten by a later Send, and the receiver decodes another message than the one sent")
+		}
 	}
-	c.Floor("C10.B5-senders", 5)
+	// the ingest client's direct HTTP announce is a sender too: the provider ID goes on every address, through the
+	// same conversion, and the result is what is encoded
+	if f := c.Func("ingest/client", "Client.Announce"); f != nil {
+		conv := c.Calls(f.SSA, Call("peer.AddrInfoToP2pAddrs", Op("param", "")))
+		okC := len(conv) == 1
+		okSet, okUntouched := false, true
+		if okC {
+			res := Extract("0", Is(c.E(conv[0].In.(*ssa.Call))))
+			okSet = len(c.Calls(f.SSA, Call("message.Message).SetAddrs", Any(), res))) == 1
+			// no element of the converted list is replaced afterwards
+			instrs(f.SSA, func(in ssa.Instruction) {
+				if st, ok := in.(*ssa.Store); ok {
+					if a := c.E(st.Addr); a.Op == "index" {
+						if _, m := Match(res, a.Args[0]); m {
+							okUntouched = false
+						}
+					}
+				}
+			})
+		}
+		c.Check(okC && okSet && okUntouched, "C10.B5-senders", f.Name+" › provider ID on every address", f.SSA.Pos(), "message addresses := AddrInfoToP2pAddrs(provider), unmodified", "the direct announce does not put AddrInfoToP2pAddrs(provider), unmodified, on the wire: some addresses go out without the publisher ID")
+	} else {
+		c.Unk("C10.B5-senders", "ingest/client.(*Client).Announce", token.NoPos, "not found")
+	}
+	c.Floor("C10.B5-senders", 7)
 }
 
 func c10UnknownProto(c *Ctx) {
